@@ -387,3 +387,52 @@ def explain_dep5(o, s, m):
 M1 = PARAMS.get("m1")
 M2 = PARAMS.get("m2")
 EXPLAIN = {"_ob": explain, "_last": explain_last, "_dep5": explain_dep5}
+
+
+# ------------------------------------------------------------------ C14: order of NestedReuseTOML.reuse_tomls does not matter
+PERMS3 = [(0, 1, 2), (0, 2, 1), (1, 0, 2), (1, 2, 0), (2, 0, 1), (2, 1, 0)]
+
+
+def _order_story(o, l0, l1, l2, pm):
+    own = OWN[_pick(o, int(PARAMS.get("own_n", 4)))]
+    lv = [SHAPES[FIXED[i]] if FIXED[i] is not None else SHAPES[_pick(x, len(SHAPES))] for i, x in enumerate((l0, l1, l2))]
+    perm = PERMS3[_pick_from(pm, PARAMS.get("perms", [1, 2, 3, 4, 5]))]
+
+    def run(order):
+        tomls = [TOMLS[(i, lv[i])] for i in order if lv[i] is not None]
+        gl = NestedReuseTOML(reuse_tomls=tomls, source=str(ROOT)) if tomls else None
+        project = pj.Project(ROOT, vcs_strategy=None, global_licensing=gl, license_map={}, licenses={})
+        saved = (pj.reuse_info_of_file, pj.is_binary, pj._determine_license_path)
+        pj.reuse_info_of_file = lambda p, op, r: _info_of(own, "own", p, op)
+        pj.is_binary = lambda p: False
+        pj._determine_license_path = lambda p: Path(p)
+        try:
+            return norm(project.reuse_info_of(FILE))
+        finally:
+            pj.reuse_info_of_file, pj.is_binary, pj._determine_license_path = saved
+
+    a, b = run((0, 1, 2)), run(perm)
+    return a == b, {"own": own, "levels": lv, "order": list(perm), "identity": a, "permuted": b}
+
+
+def _order(o: int, l0: int, l1: int, l2: int, pm: int) -> bool:
+    """
+    pre: 0 <= o < int(PARAMS.get("own_n", 4)) and 0 <= l0 < 13 and 0 <= l1 < 13 and 0 <= l2 < 13 and pm in PARAMS.get("perms", [1, 2, 3, 4, 5])
+    post: _
+    """
+    return _order_story(o, l0, l1, l2, pm)[0]
+
+
+def _order_reach(o: int, l0: int, l1: int, l2: int, pm: int) -> bool:
+    """
+    pre: 0 <= o < int(PARAMS.get("own_n", 4)) and 0 <= l0 < 13 and 0 <= l1 < 13 and 0 <= l2 < 13 and pm in PARAMS.get("perms", [1, 2, 3, 4, 5])
+    post: False
+    """
+    return _order_story(o, l0, l1, l2, pm)[0]
+
+
+def explain_order(*a):
+    return _order_story(*a)[1]
+
+
+EXPLAIN["_order"] = explain_order
